@@ -101,6 +101,11 @@ def get_construct(src):
     return _CACHE[src]
 
 
+def core_ConstructError():
+    import construct
+    return construct.core.ConstructError
+
+
 def eval_case(case):
     """worker side: -> (request sexp or None, skip reason, impl response term or None)"""
     if case['op'] in ('hexdump', 'hexundump'):
@@ -108,6 +113,41 @@ def eval_case(case):
         if case['op'] == 'hexdump':
             return (sexp.to_sexp('request', ('RHexdump', case['data'], ls)), None, I.run_hexdump(case['data'], ls))
         return (sexp.to_sexp('request', ('RHexundump', case['data'], ls)), None, I.run_hexundump(case['data'], ls))
+    if case['op'] in ('ksy_emit', 'ksy_interp', 'ksy_layout'):
+        import ksy as K
+        try:
+            c, term, why = get_construct(case['src'])
+        except Exception as e:
+            return (None, 'construct expression raised %s: %s' % (type(e).__name__, e), None)
+        if term is None:
+            return (None, 'reify: ' + why, None)
+        try:
+            R.check_macro_shapes(c)
+            try:
+                schema = K.export(c)
+            except (core_ConstructError(), NotImplementedError, AssertionError):
+                schema = None
+            if case['op'] == 'ksy_emit':
+                real = K.norm_schema_term(K.schema_term(schema)) if schema is not None else None
+                return (sexp.to_sexp('request', ('RKsyEmit', term)), None, ('ROkKsy', None if real is None else ('Some', real)))
+            kwt = R.kw_term(case.get('kw', {}))
+            if case['op'] == 'ksy_layout':
+                try:
+                    lay = K.fields_term(K.layout(c, case['data'], case.get('kw', {})))
+                    resp = ('ROkFields', lay)
+                except Exception as e:
+                    resp = I.err_term(e)
+                return (sexp.to_sexp('request', ('RKsyLayout', term, kwt, case['data'])), None, resp)
+            if schema is None:
+                return (None, 'not exportable', None)
+            st = K.schema_term(schema)
+            try:
+                resp = ('ROkFields', K.fields_term(K.interpret(schema, case['data'], case.get('kw', {}))))
+            except K.KsyError:
+                resp = ('RErr', ('EStream',), None)
+            return (sexp.to_sexp('request', ('RKsyInterp', st, kwt, case['data'])), None, resp)
+        except R.Unsupported as ex:
+            return (None, 'reify: ' + str(ex), None)
     if case['op'] == 'cops':
         try:
             req = ('RCops', [I.cop_term(o) for o in case['ops']])
@@ -191,6 +231,11 @@ def norm(resp):
         return ('ROkBuild', R.strip_private(resp[1]), resp[2])
     if resp[0] == 'ROkVal':
         return ('ROkVal', R.strip_private(resp[1]))
+    if resp[0] == 'ROkKsy':
+        import ksy as K
+        return ('ROkKsy', None if resp[1] is None else ('Some', K.norm_schema_term(resp[1][1])))
+    if resp[0] == 'ROkFields':
+        return ('ROkFields', [(((a, b), c), R.strip_private(v)) for ((a, b), c), v in resp[1]])
     if resp[0] == 'ROkLazy':
         return ('ROkLazy', resp[1], [(o[0], R.strip_private(o[1]), o[2]) if o[0] == 'LVal' else o for o in resp[2]])
     return resp
